@@ -176,6 +176,19 @@ def run(pid, tier, ev=None, vd=None, finish=True):
                     nconf += 1
                     if nconf <= 3:
                         vd.nonconformance(f"replayed model behaviour of {rc['prog']} ended in {rc['final']}, model says {wf}")
+        if pid == "C10":
+            # "a write whose streamed bytes do not match its declared hash or LENGTH changes no such path": single sessions of
+            # the real server (the HubSession pieces that are such writes), alone and followed by a read
+            import hub_session as hs
+            bad_puts = ["put_badhash", "put_dir_badhash", "put_content_eof", "put_len_beyond_eof"]
+            scases = [{"pro": "ok", "pieces": [b] + tail, "replies": [], "exit": 0, "f": "c1", "conf": "none"} for b in bad_puts for tail in ([], ["get"], ["list", "get"])]
+            srecs = hs.run_cases(copia, os.path.join(work, "s10"), hashes, [], [(c, "session", vlib.seed() + i) for i, c in enumerate(scases)])
+            for e in srecs:
+                if not e["tree_unchanged"]:
+                    vd.violation("mismatched-put-" + "-".join(e["pieces"]),
+                                 f"session {e['pieces']}: a Put whose bytes do not match its declared hash / length changed the served tree: f={e['f']} conflict-copy={e['conf']} replies={e['replies']}",
+                                 {"kind": "hub-session", "record": e})
+            ev.add(evaluations=len(srecs), traces_validated_against_impl=len(srecs))
         ev.extra["conformance"] = {"replayed_model_behaviours": sum(1 for x in recs if isinstance(x.get("want_final"), dict) and not x["kill"]), "final_state_mismatches": nconf}
         ev.extra["executions"] = {"total": len(recs), "accepted_linearizable": len(accepted), "list_only_failures": len(relaxed_ok),
                                   "controller_errors": len(errs), "with_kill": sum(1 for x in recs if x["kill"]),
